@@ -141,7 +141,7 @@ CHECKS = {
         'performance-tracking evaluation through the real Composition.persistent and asset.State machinery, each action in a '
         'fresh process under another hash seed; histories in which the hyper-parameters of the code change between training and '
         'loading, with actors that restore their own hyper-parameter from the state (judged by the oracle: the current code\'s '
-        'hyper-parameters must win). The performance-tracking mis-binding of the unchanged code is a listed finding '
+        'hyper-parameters must win), a skip-connection pipeline trained without and applied with a sink-like tail, and an implicitly addressed generation read through the real asset levels while another training commits between two state loads (all three oracle only). The performance-tracking mis-binding of the unchanged code is a listed finding '
         'whose exact predicted outcome is matched; anything else is a violation.',
         BASE_NOTE + 'Garbage-collection driven registry edits are runtime behaviour; serving-side binding is exercised under C16.',
         'DESIGN.md section 5 C04',
@@ -215,7 +215,7 @@ CHECKS = {
         'PARTIAL (model scope). Proved for every batch and EVERY schedule of the agents (event loop, extract threads, any number '
         'of workers per executor, executor result threads, respond pool): a caller only ever receives the outcome of its own payload '
         'on the instance its application selects or its own platform error (never crossed); a given answer is never changed or '
-        'repeated (never duplicated); while a request is unanswered some step is enabled and every step strictly decreases a measure '
+        'repeated (never duplicated; an unsupported accept list fails in the respond step, alone); while a request is unanswered some step is enabled and every step strictly decreases a measure '
         '<= 8N, so every schedule that keeps moving answers every caller (never lost); a failing request only changes its own phase '
         '(fails alone); the descriptor cache never refuses an existing application under any interleaving of any number of threads '
         '(the pre-fix code did - witness kept; fixed in /repo). Tied to the code by running real batches through the real Engine '
@@ -243,7 +243,9 @@ CHECKS = {
         'untrained decorated actor exports it and a trained one never does (falsy learned states included); incremental training '
         'continues identically after re-import. Correspondence: random operation sequences (training, apply, parameter updates, '
         'cloudpickle round trips, transfers with equal/different parameters via set_state and via the real SetState functor) on '
-        'native (default and custom codec), function-decorated and class-wrapped (method-name and callable mapping) actors.',
+        'native (default and custom codec), function-decorated (also with a mutable state updated in place) and class-wrapped (method-name '
+        'and callable mapping) actors; one functor object executed repeatedly (also with an empty state) and an exported state loaded '
+        'into two actors of which the first trains on (both oracle only).',
         BASE_NOTE + 'User functions are fixed integer arithmetic; cloudpickle is trusted.',
         'DESIGN.md section 5 C13',
     ),
@@ -256,7 +258,7 @@ CHECKS = {
         'levels and posix registry; for every commit and publish of the crash-histories the operation is replayed from a snapshot '
         'with a forked child killed before each file-system primitive and in the middle of each write, then read by a fresh reader; '
         'histories with more than nine generations and releases crossing 0.9 -> 0.10; histories driven through ONE long-lived writer '
-        'process (one Directory object, its caches) with refused commits (an unstaged state) and their retries, read by another process.',
+        'process (one Directory object, its caches) or two of them holding their release handles, with refused commits (an unstaged state) and their retries, read by another process; closing a written file is a crash point of its own.',
         BASE_NOTE + 'Process-death semantics only (primitives atomic and durable in program order); volatile/mlflow registries not exercised.',
         'DESIGN.md section 5 C05',
     ),
@@ -307,7 +309,7 @@ def main():
             '(3) drives the real forml code in /repo on generated cases, judges the observations with an oracle written from the '
             'property text, and evaluates the Gallina model on the same cases inside Coq (vm_compute). Known findings (genuine '
             'defects of /repo recorded, not repaired) and the fix: commits made in /repo are in known_findings.json; seeded '
-            'changes used to measure detection are under seeded/ (80, all caught by the quick tier). Honours VERIF_SEED / '
+            'changes used to measure detection are under seeded/ (96, all caught by the quick tier). Honours VERIF_SEED / '
             'VERIF_TIER. Expected durations: quick 3-45 s per property; thorough up to about 26 min (C17), see DESIGN.md 10.2.'
         ),
     }
